@@ -43,3 +43,16 @@ package cbor
 //@   ensures pos: err == nil ==> d.consumed + gf(d.dec, read) == pos + hlen && d.consumed >= 0 && gf(d.dec, read) >= 0 && d.consumed <= len(d.data) && gf(d.dec, read) <= len(d.data)
 //@   ensures fail: err != nil ==> d.consumed == old(d.consumed) && d.dec == old(d.dec)
 //@   ensures total: defArrayAt(d.data, pos) && hdrCount(d.data, pos) <= 2147483647 ==> err == nil
+
+// C03: the id of a tagged list. With a one-byte list header the first element starts at offset 1;
+// with any other header form (non-minimal 0x98..0x9b, indefinite 0x9f) the id must come from a
+// real decode of the very same bytes, never from a fixed offset.
+//@ func DecodeIdFromList(cborData) (id, err)
+//@   props C03
+//@   attr trackcalls on
+//@   ensures tooshort: len(cborData) < 2 ==> err != nil
+//@   ensures direct: err == nil && !called(Decode) ==> len(cborData) >= 2 && cborData[0] >= 128 && cborData[0] <= 151 && cborData[1] <= 23 && id == int(cborData[1])
+//@   ensures decoded: err == nil && called(Decode) ==> callarg(Decode, 0) == cborData && called("Value") &&
+//@       len(unbox(callres("Value"), type([]any))) > 0 && dyn(unbox(callres("Value"), type([]any))[0]) == type(uint64) &&
+//@       uint64(id) == unbox(unbox(callres("Value"), type([]any))[0], type(uint64)) && id >= 0
+//@   ensures nonminimal: err == nil && len(cborData) >= 2 && (cborData[0] < 128 || cborData[0] > 151) ==> called(Decode)
